@@ -421,7 +421,13 @@ func ParseContractFile(path, pkg string) (*ContractFile, error) {
 			case "assert":
 				m := regexp.MustCompile(`^call=([^#\s]+)#(\d+)\s+(.*)$`).FindStringSubmatch(rest)
 				if m == nil {
-					return nil, fail(i, "assert call=NAME#N [label:] expr")
+					// assert return=N: at the N-th return statement in source order
+					if rm := regexp.MustCompile(`^return=(\d+)\s+(.*)$`).FindStringSubmatch(rest); rm != nil {
+						m = []string{rest, "return$", rm[1], rm[2]}
+					}
+				}
+				if m == nil {
+					return nil, fail(i, "assert call=NAME#N [label:] expr  |  assert return=N [label:] expr")
 				}
 				c := &Clause{Kind: "assert", Line: linenos[i]}
 				c.Loop, _ = strconv.Atoi(m[2])
